@@ -223,6 +223,12 @@ class BuildFailed(Exception):
         self.stage, self.log = stage, log
 
 
+def compile_errors(ex):
+    """The compiler's own error lines of a BuildFailed, or '' when the build died for another reason (killed, out of
+    memory) - only the former says something about the generated code."""
+    return ' | '.join([l for l in ex.log.splitlines() if ' error' in l or 'error:' in l][:2])[:300]
+
+
 def compile_cxx(sources, exe, cwd, sanitize=True, extra=(), syntax_only=False, timeout=600):
     cmd = [CXX] + BASE_FLAGS + (SAN_FLAGS if sanitize else []) + ['-I', include_dir(), '-I', cwd] + list(extra)
     if syntax_only:
